@@ -14,20 +14,37 @@ Theorem C08_app_exactly_once : forall pre k hs he post,
   in_domain k = true ->
   let i := next (final gen_cfg init pre) in
   shaped i (shape_of k) post ->
-  app_cbs i (events gen_cfg init (pre ++ AppRequest k hs he :: post)) =
+  app_cbs i (events gen_cfg init (pre ++ AppRequest k hs he no_retry :: post)) =
   expected hs he (first_reply i post) (mkreq i (OApp k)).
 Proof. exact gen_app_exactly_once_thm. Qed.
 Print Assumptions C08_app_exactly_once.
 
-(* The same for ANY routing table that transports the kind faithfully (not only today's). *)
+(* The same WITH re-entrancy: the request's callbacks may re-issue the same request entity (same
+   id) from inside the callback -- the "retry" pattern -- up to [budget rt] times, on success
+   if [rs rt], on error if [re rt].  Every issue and every re-issue of the id gets exactly the
+   callback of the first result/error reply after THAT issue ([expected_seq]), with the
+   original request attached; nothing more, in any history.  (C08_app_exactly_once is the
+   instance rt = no_retry.) *)
+Theorem C08_app_exactly_once_retry : forall pre k hs he rt post,
+  in_domain k = true ->
+  let i := next (final gen_cfg init pre) in
+  shaped i (shape_of k) post ->
+  app_cbs i (events gen_cfg init (pre ++ AppRequest k hs he rt :: post)) =
+  expected_seq i hs he (mkreq i (OApp k)) (Some rt) post.
+Proof. exact gen_app_exactly_once_retry_thm. Qed.
+Print Assumptions C08_app_exactly_once_retry.
+
+(* The same for ANY routing table that transports the kind faithfully and removes registry
+   entries before dispatching (not only today's). *)
 Theorem C08_app_exactly_once_any_table : forall c k,
-  strict_reply c = true -> kind_ok c k = true ->
-  forall pre hs he post,
+  strict_reply c = true -> late_delete c = false -> late_delete_iface c = false ->
+  kind_ok c k = true ->
+  forall pre hs he rt post,
   let i := next (final c init pre) in
   shaped i (shape_of k) post ->
-  app_cbs i (events c init (pre ++ AppRequest k hs he :: post)) =
-  expected hs he (first_reply i post) (mkreq i (OApp k)).
-Proof. exact app_exactly_once_kind_thm. Qed.
+  app_cbs i (events c init (pre ++ AppRequest k hs he rt :: post)) =
+  expected_seq i hs he (mkreq i (OApp k)) (Some rt) post.
+Proof. exact app_exactly_once_retry_kind_thm. Qed.
 Print Assumptions C08_app_exactly_once_any_table.
 
 (* Library level (key fetch from each axolotl layer, key upload, group info): the closure
@@ -93,3 +110,18 @@ Theorem C08_unrepaired_refuted :
   refutes cfg_unrepaired KLastSeen [Deliver 1 TGet ShSPing; Deliver 1 TResult ShPlain].
 Proof. exact unrepaired_refuted_thm. Qed.
 Print Assumptions C08_unrepaired_refuted.
+
+(* Removing the entry AFTER the callback dispatch (either registry) violates the property as
+   soon as a callback retries: the retry's reply reaches no callback and the request hangs. *)
+Theorem C08_delete_after_dispatch_refuted :
+  refutes_retry cfg_late_proto KLastSeen (mkretry false true 1)
+                [Deliver 1 TError ShPlain; Deliver 1 TResult ShPlain] /\
+  refutes_retry cfg_late_proto KGList (mkretry true false 1)
+                [Deliver 1 TResult ShPlain; Deliver 1 TResult ShPlain] /\
+  refutes_retry cfg_late_iface KLastSeen (mkretry false true 1)
+                [Deliver 1 TError ShPlain; Deliver 1 TResult ShPlain] /\
+  lookup 1 (app (final cfg_late_proto init
+                   [AppRequest KLastSeen true true (mkretry false true 1);
+                    Deliver 1 TError ShPlain; Deliver 1 TResult ShPlain])) <> None.
+Proof. exact delete_after_dispatch_refuted. Qed.
+Print Assumptions C08_delete_after_dispatch_refuted.
